@@ -3,6 +3,7 @@ C17 — Monitoring output is well-formed and lossless.
 The round trip is against the reference decoder `decodeLine` of Model/LineProtocol.lean.
 -/
 import CobaldVerif.Lemmas.LineProtocol
+import CobaldVerif.Generated.Src
 import Mathlib.Data.Rat.Floor
 import Mathlib.Tactic.Linarith
 import Mathlib.Tactic.FieldSimp
@@ -110,6 +111,27 @@ theorem lineProtocol_roundtrip (name : List Char) (tags : List (List Char × Lis
           ts := h.ts }
 
 /-! ### a single newline-terminated line -/
+
+/-! ### the escaping chains as they stand in the source
+
+`Generated/Src.lean` is re-emitted by `harness/vh/translate.py` from the text of
+`monitor/format_line.py` on every run: the `.replace(a, b)` chains of `escape_key`, `escape_field`
+and of the measurement name, in the order in which the code applies them. -/
+
+/-- `escape_key` as written in the source is the model's `esc S3` -/
+theorem gen_escape_key (s : List Char) : replSeq Gen.escapeKeyPairs s = esc S3 s := by
+  rw [replSeq_eq_onePass _ _ (by decide)]
+  exact onePass_escPairs S3 s
+
+/-- the escaping of the measurement name as written in the source is `esc S2` -/
+theorem gen_escape_name (s : List Char) : replSeq Gen.escapeNamePairs s = esc S2 s := by
+  rw [replSeq_eq_onePass _ _ (by decide)]
+  exact onePass_escPairs S2 s
+
+/-- `escape_field`'s chain (backslashes first, then quotes) is the model's `escQ` -/
+theorem gen_escape_field (s : List Char) : replSeq Gen.escapeFieldPairs s = escQ s := by
+  rw [replSeq_eq_onePass _ _ (by decide), escQ_eq_esc]
+  exact onePass_escPairs ['\\', '"'] s
 
 /-- tags and fields are emitted in the order of their keys (code points, as Python's `sorted`),
 whatever order the record or the defaults had them in -/
